@@ -156,6 +156,143 @@ struct Manual {
     ~Manual() { sch.reset(); }
 };
 
+// ------------------------------------------------------------------ tx
+// manual mode with callback-style sleepers (make_promise(handler)) whose completion handler re-enters the scheduler, and
+// sleep_for with durations that are not whole milliseconds.  Every call runs under the watchdog.
+struct Extra {
+    struct Act { long act, cid, sid, stp, spid; };
+    // the scheduler is declared LAST: it is destroyed first, and the handlers of the promises it drops still find the maps
+    std::map<long, std::unique_ptr<future<void>>> futs;    // future-backed sleeps
+    std::map<long, long> cbstat;                            // callback sleeps: outcome recorded by the handler
+    std::map<long, long> last;
+    long seq = 1;
+    scheduler sch;
+
+    bool used(long p) { return futs.count(p) || cbstat.count(p); }
+    long status(long p) {
+        if (cbstat.count(p)) return cbstat[p];
+        return status_of(*futs[p]);
+    }
+    void emit(long st, long r1, long r2) {
+        std::vector<long> v{st, r1, r2};
+        std::vector<long> chg;
+        for (auto &kv : last) {
+            long s = status(kv.first);
+            if (s != kv.second) { chg.push_back(kv.first); chg.push_back(s); kv.second = s; }
+        }
+        v.push_back((long)chg.size() / 2);
+        v.insert(v.end(), chg.begin(), chg.end());
+        v.push_back((long)sch._scheduled.size());
+        vh::print_obs(v);
+    }
+    void reject() { vh::print_obs({1, 0, 0, 0, 0}); }
+    void plain(long p, long id, long tp) {
+        auto &f = futs[p];
+        last[p] = 0;
+        f = std::make_unique<future<void>>();
+        sch.schedule(mk_id(id), f->get_promise(), mk_tp(tp));
+    }
+    static long outcome(future<void> &f) {
+        bool hv = f._state != future_common::State::not_value;
+        try { f.value(); return hv ? 1 : -1; }
+        catch (const await_canceled_exception &) { return hv ? 3 : 2; }
+        catch (const test_exception &e) { return 3 + e.code; }
+        catch (...) { return -1; }
+    }
+    template <typename D> void do_sleep_for(long p, long id, D dur, long &lo, long &hi) {
+        auto before = std::chrono::system_clock::now();
+        futs[p].reset(new future<void>(sch.sleep_for(dur, mk_id(id))));
+        auto after = std::chrono::system_clock::now();
+        last[p] = 0;
+        lo = 0; hi = 0;
+        const void *me = futs[p].get();
+        for (auto &it : sch._scheduled)
+            if (it._p.get_id() == me) {
+                lo = it._tp >= before + dur ? 1 : 0;       // never earlier than asked for
+                hi = it._tp <= after + dur ? 1 : 0;
+            }
+    }
+    void exec(const std::vector<long> &op) {
+        auto okpid = [](long p) { return p >= 0 && p < 200; };
+        if (op.empty()) { reject(); return; }
+        switch (op[0]) {
+            case 1:
+                if (op.size() != 4 || !okpid(op[1]) || used(op[1]) || op[2] < 0) { reject(); return; }
+                plain(op[1], op[2], op[3]);
+                emit(0, 0, 0);
+                return;
+            case 8: {
+                if (op.size() != 9 || !okpid(op[1]) || used(op[1]) || op[2] < 0 || op[4] < 0 || op[4] > 3 || op[5] < 0 || op[6] < 0 ||
+                    !okpid(op[8]) || op[8] == op[1]) { reject(); return; }
+                long p = op[1];
+                Act a{op[4], op[5], op[6], op[7], op[8]};
+                cbstat[p] = 0; last[p] = 0;
+                sch.schedule(mk_id(op[2]), make_promise<void>([this, p, a](future<void> &f) {
+                    long o = outcome(f);
+                    cbstat[p] = o;
+                    if (o == 2) return;                                 // merely dropped: the scheduler may be gone
+                    if (a.act == 1 || a.act == 3) { bool c = sch.cancel(mk_id(a.cid)); (void)c; }
+                    if ((a.act == 2 || a.act == 3) && !used(a.spid)) plain(a.spid, a.sid, a.stp);
+                }), mk_tp(op[3]));
+                emit(0, 0, 0);
+                return;
+            }
+            case 9: {
+                if (op.size() != 5 || !okpid(op[1]) || used(op[1]) || op[2] < 0 || op[3] < 0 || op[3] > 3 || op[4] < 0 || op[4] >= 1000000) { reject(); return; }
+                long lo = 0, hi = 0;
+                auto whole = std::chrono::seconds(seq++);
+                switch (op[3]) {
+                    case 0: do_sleep_for(op[1], op[2], std::chrono::nanoseconds(whole) + std::chrono::nanoseconds(op[4]), lo, hi); break;
+                    case 1: do_sleep_for(op[1], op[2], std::chrono::microseconds(whole) + std::chrono::microseconds(op[4]), lo, hi); break;
+                    case 2: do_sleep_for(op[1], op[2], std::chrono::milliseconds(whole) + std::chrono::milliseconds(op[4]), lo, hi); break;
+                    default: {
+                        using quarter_ms = std::chrono::duration<long, std::ratio<1, 4000>>;
+                        do_sleep_for(op[1], op[2], quarter_ms(whole) + quarter_ms(op[4]), lo, hi);
+                    }
+                }
+                emit(0, lo, hi);
+                return;
+            }
+            case 3: {
+                if (op.size() != 2 || op[1] >= 1000000000000000L) { reject(); return; }
+                scheduler::expired e = sch.get_expired(mk_tp(op[1]));
+                if (std::holds_alternative<scheduler::promise>(e)) {
+                    std::get<scheduler::promise>(e)();
+                    emit(0, 1, 0);
+                } else {
+                    tp_t t = std::get<tp_t>(e);
+                    if (t == tp_t::max()) emit(0, 2, 0);
+                    else {
+                        long c = (long)t.time_since_epoch().count();
+                        emit(0, 0, c >= 1000000000000000L ? -1 : c);
+                    }
+                }
+                return;
+            }
+            case 4: {
+                if (op.size() != 2 || op[1] < 0) { reject(); return; }
+                scheduler::promise p = sch.remove(mk_id(op[1]));
+                if (p) { p(); emit(0, 1, 0); } else emit(0, 0, 0);
+                return;
+            }
+            case 5: {
+                if (op.size() != 2 || op[1] < 0) { reject(); return; }
+                bool r = sch.cancel(mk_id(op[1]));
+                emit(0, r ? 1 : 0, 0);
+                return;
+            }
+            case 6: {
+                if (op.size() != 3 || op[1] < 0 || op[2] < 1 || op[2] > 1000) { reject(); return; }
+                bool r = sch.cancel(mk_id(op[1]), std::make_exception_ptr(test_exception{op[2]}));
+                emit(0, r ? 1 : 0, 0);
+                return;
+            }
+            default:
+                reject();
+        }
+    }
+};
+
 // ------------------------------------------------------------------ tiv
 static std::mutex wd_mx;
 static std::condition_variable wd_cv;
@@ -477,6 +614,9 @@ int main(int argc, char **argv) {
         if (cs.engine == "tm") {
             Manual m;
             for (auto &op : cs.ops) m.exec(op);
+        } else if (cs.engine == "tx") {
+            Extra x;
+            for (auto &op : cs.ops) with_watchdog(-998, [&] { x.exec(op); });
         } else if (cs.engine == "tiv") {
             Interval iv;
             // every call runs under the watchdog: a stop callback that self-deadlocks may run inside request_stop(), inside
